@@ -15,6 +15,9 @@ Case (driver "launch"):
            "direct": bool (the caller constructs and spawns the public TorProcessProtocol itself; no launch()),
            "ask_at_start": bool (somebody asks when_connected() right after the spawn)},
    "sched": [action, ...]}
+           "tmp_symlink": bool (tempfile.gettempdir() of the case is a symlink to a real directory)
+Case (driver "chain"): {"launches": [case, case(, case)]}: launches one after the other that share ONE TorConfig
+  object (what a caller retrying launch_tor(config, reactor) does); each is judged when its process has ended.
 Case (driver "pair"): two such launches on ONE reactor:
   {"launches": [case, case], "order": [0|1, ...] (whose next action runs), "b_start": k (B is launched just
    before step k)}; every per-launch obligation is checked for both after every action, whoever's it was.
@@ -68,7 +71,8 @@ RULE = ("Cases = launch() configuration (temp / existing / not-yet-existing call
         "Hypothesis draws schedules from a light enabling model; thorough adds every order-preserving "
         "interleaving of fixed action threads (7-10 actions). Also: the public TorProcessProtocol driven "
         "directly (nobody waiting unless the schedule asks), when_connected() asked at arbitrary points of the "
-        "schedule, and (driver 'pair') two launches alive on one reactor with merged schedules. "
+        "schedule, (driver 'pair') two launches alive on one reactor with merged schedules, (driver 'chain') "
+        "two or three sequential launches re-using one TorConfig object, and a temp area reached through a symlink. "
         "Non-trivial = the process was spawned, at "
         "least two of {control connection authenticated, PROGRESS=100 delivered, timeout elapsed, process "
         "ended} actually happened, and the launch result fired; distinct = distinct canonical JSON of the "
@@ -111,6 +115,14 @@ ASSUMPTIONS = [
     "when_connected() (resolves to the process protocol) only the second half is checked",
     "a when_connected() obtained from inside another one's callback/errback is one more launch result with the "
     "same obligations (failure required once the process ended first); success is still never required",
+    "the temp area may be reached through a symlink (TMPDIR=/link, /tmp -> /private/tmp): the temporary "
+    "DataDirectory is whatever launch() told Tor to use when the caller supplied none, and must be gone after "
+    "the process ended however the path is spelled",
+    "sequential launches that re-use one TorConfig object (launch(_tor_config=config), i.e. what the public "
+    "launch_tor(config, reactor) passes) and no data_directory: each launch's DataDirectory is temporary - nothing "
+    "the caller did not supply counts as caller-supplied; an explicit TCP control_port is passed to every launch "
+    "of a chain because launch() re-reads the previous launch's unix-socket ControlPort from the config and refuses "
+    "it once that directory is gone (labelled launch-refused, outside the statement)",
     "two launches on one reactor are independent: 'the process' in 'removed once the process has ended' is the "
     "launch's own process; the clock is shared, each launch's timeout counts from its own start",
 ]
@@ -352,6 +364,7 @@ class _World(object):
         self.auto = bool(cfg.get("auto", True))
         self.reactor = reactor if reactor is not None else FakeReactor()
         self.direct = bool(cfg.get("direct", False))
+        self.shared_config = None   # a TorConfig the caller re-uses for several launches (driver "chain")
         self.T = cfg.get("timeout")
         self.t0 = 0.0
         self.started = False
@@ -429,7 +442,13 @@ class _World(object):
         if cfg.get("stdio"):
             kw["stdout"] = _Sink()
             kw["stderr"] = _Sink()
-        before = set(os.listdir(box))
+        tmp_root = tempfile.gettempdir()        # the case's own temp area (possibly reached through a symlink)
+        before = set(os.listdir(tmp_root))
+        if self.shared_config is not None:
+            # what the deprecated launch_tor(config, reactor, ..) passes: one TorConfig the caller keeps
+            kw["_tor_config"] = self.shared_config
+            if "control_port" not in kw:
+                kw["control_port"] = 9051       # launch() would re-read the previous launch's unix socket path
         nproc = len(self.reactor.processes)
         self.t0 = self.reactor.seconds()
         self.started = True
@@ -476,13 +495,16 @@ class _World(object):
         for i, a in enumerate(args[:-1]):
             if a == "DataDirectory":
                 datadir = args[i + 1]
-        new = sorted(set(os.listdir(box)) - before)
+        new = sorted(set(os.listdir(tmp_root)) - before)
         if self.callerdir is None and not self.direct:
+            # the caller supplied no directory: whatever this Tor was told to use is launch()'s own doing
             if datadir is not None and os.path.isdir(datadir) and \
-                    os.path.realpath(os.path.dirname(datadir)) == os.path.realpath(box):
+                    os.path.realpath(os.path.dirname(datadir)) == os.path.realpath(tmp_root):
                 self.tempdir = datadir
-            elif len(new) == 1 and os.path.isdir(os.path.join(box, new[0])):
-                self.tempdir = os.path.join(box, new[0])
+                if not [n for n in new if os.path.realpath(os.path.join(tmp_root, n)) == os.path.realpath(datadir)]:
+                    self.labels.add("datadir-not-freshly-created")
+            elif len(new) == 1 and os.path.isdir(os.path.join(tmp_root, new[0])):
+                self.tempdir = os.path.join(tmp_root, new[0])
             else:
                 self.res.excluded.append("tempdir-not-identifiable")
         # a running Tor creates a missing DataDirectory itself and populates it
@@ -720,19 +742,38 @@ class _Sink(object):
 
 # ----------------------------------------------------------------------------- the driver / oracle
 
-def drive_launch(case):
-    res = Result()
+def _in_box(cfgs, fn):
+    """Run fn(box) with tempfile pointed at a directory of this case's own (removed afterwards).  With
+    cfg "tmp_symlink" the temp area is reached through a symlink (TMPDIR=/some/link, macOS /tmp -> /private/tmp)."""
     base = tempfile.gettempdir()
     box = os.path.join(base, "c19-%d-%d" % (os.getpid(), next(_counter)))
     os.mkdir(box)
     old_tempdir = tempfile.tempdir
-    tempfile.tempdir = box
+    if any(c.get("tmp_symlink") for c in cfgs):
+        os.mkdir(os.path.join(box, "real-tmp"))
+        os.symlink("real-tmp", os.path.join(box, "tmp"))
+        tempfile.tempdir = os.path.join(box, "tmp")
+    else:
+        tempfile.tempdir = box
     try:
         with LogCapture() as logs:
-            _run(case, res, box, logs)
+            fn(box, logs)
     finally:
         tempfile.tempdir = old_tempdir
         shutil.rmtree(box, ignore_errors=True)
+
+
+def _once(labels):
+    seen = []
+    for lab in labels:
+        if lab not in seen:
+            seen.append(lab)
+    return seen
+
+
+def drive_launch(case):
+    res = Result()
+    _in_box([case["cfg"]], lambda box, logs: _run(case, res, box, logs))
     return res
 
 
@@ -901,7 +942,13 @@ def _judge(w, res):
                         "(all: %r)" % (w.name, to, w.sig_during, w.transport.signals))
     # ---- directories at the end (before any shutdown trigger)
     if w.tempdir is not None and w.ended and os.path.exists(w.tempdir):
-        res.bad("tempdir-left-after-process-end",
+        tag = "tempdir-left-after-process-end"
+        if "datadir-not-freshly-created" in w.labels:
+            # launch() did not make a fresh directory although the caller supplied none (a re-used TorConfig)
+            tag = "stale-datadir-adopted-and-left-after-process-end"
+        elif w.cfg.get("tmp_symlink"):
+            tag = "tempdir-behind-symlink-left-after-process-end"
+        res.bad(tag,
                 "%stemporary DataDirectory %s still exists; processEnded was delivered at action %d" % (
                     w.name, os.path.basename(w.tempdir), en))
     return {"in_window": in_window, "timeout_first": timeout_first, "ended_first": ended_first}
@@ -947,6 +994,8 @@ def _classify(w, res, case_cfg, sched, facts):
         res.label("caller-datadir:" + case_cfg["datadir"])
     elif not w.direct:
         res.label("temp-datadir")
+        if case_cfg.get("tmp_symlink"):
+            res.label("temp-area-through-symlink" + (":process-ended" if w.ended else ""))
     if w.tempdir and w.ended:
         res.label("tempdir-checked-gone")
     if not w.auto:
@@ -1101,23 +1150,82 @@ def _run_pair(case, res, box, logs):
 
 def drive_pair(case):
     res = Result()
-    base = tempfile.gettempdir()
-    box = os.path.join(base, "c19-%d-%d" % (os.getpid(), next(_counter)))
-    os.mkdir(box)
-    old_tempdir = tempfile.tempdir
-    tempfile.tempdir = box
-    try:
-        with LogCapture() as logs:
-            _run_pair(case, res, box, logs)
-    finally:
-        tempfile.tempdir = old_tempdir
-        shutil.rmtree(box, ignore_errors=True)
-    # labels of two launches: count a class once per case
-    seen = []
-    for lab in res.labels:
-        if lab not in seen:
-            seen.append(lab)
-    res.labels = seen
+    _in_box([c["cfg"] for c in case["launches"]], lambda box, logs: _run_pair(case, res, box, logs))
+    res.labels = _once(res.labels)      # labels of two launches: count a class once per case
+    return res
+
+
+def _run_chain(case, res, box, logs):
+    """Sequential launches that share ONE TorConfig object (an application retrying launch_tor(config, ..)):
+    case = {"launches": [{"cfg":.., "sched":..}, ...]}.  Each launch runs its schedule and epilogue, its
+    process is then made to end if it has not, it is judged, and only then the next launch starts."""
+    import txtorcon
+    reactor = FakeReactor()
+    config = txtorcon.TorConfig()
+    group = []
+    clock = [0]
+    logstate = [0]
+    flat = []
+    worlds = []
+    nts = []
+    for k, sub in enumerate(case["launches"]):
+        w = _World(sub, res, reactor=reactor, name="#%d: " % (k + 1), group=group, clock=clock)
+        w.direct = False
+        w.shared_config = config
+        group[:] = [w]                  # earlier launches are over: the clock concerns this one only
+        worlds.append(w)
+        w.act = len(flat)
+        w.start(box)
+        if w.launch_raised is not None or w.transport is None:
+            res.label("launch-refused")
+            continue
+        _check_caller_dir(w, res, "right after launch() returned")
+
+        def step(a, w=w):
+            i = len(flat)
+            flat.append(a)
+            w.act = i
+            w.do(a)
+            _scan_log([w], res, logs, logstate, i, a)
+            _step_checks(w, res, i, a)
+            for prev in worlds[:-1]:
+                _check_caller_dir(prev, res, "after action %d %r of a later launch" % (i, a))
+
+        for a in sub["sched"]:
+            step(list(a))
+        for a in w.epilogue():
+            step(a)
+        if not w.ended:
+            # the application gives up on this Tor before it tries again
+            step(["exit", "signal", 15])
+            for a in w.epilogue():
+                step(a)
+        facts = _judge(w, res)
+        nts.append(_classify(w, res, sub["cfg"], flat, facts))
+    # everything is over: no launch may have left a directory the caller never supplied
+    for w in worlds:
+        if w.tempdir is not None and w.ended and os.path.exists(w.tempdir) and \
+                not [x for x in worlds if x is not w and x.tempdir == w.tempdir]:
+            res.bad("tempdir-left-after-process-end",
+                    "%stemporary DataDirectory %s exists at the end of the chain" % (w.name, os.path.basename(w.tempdir)))
+    reactor.fire_triggers("shutdown")
+    for w in worlds:
+        _check_caller_dir(w, res, "after the reactor's shutdown triggers ran")
+    spawned = [w for w in worlds if w.transport is not None]
+    res.label("chain:%d-launches-one-config" % len(case["launches"]))
+    if len(spawned) >= 2:
+        res.label("chain:two-or-more-spawned")
+        if [w for w in spawned[1:] if w.tempdir]:
+            res.label("chain:later-launch-with-temp-datadir")
+        if [w for w in spawned[1:] if "datadir-not-freshly-created" in w.labels]:
+            res.label("chain:later-launch-reuses-a-directory-name")
+    res.nontrivial = bool(len(spawned) >= 2 and any(nts))
+
+
+def drive_chain(case):
+    res = Result()
+    _in_box([c["cfg"] for c in case["launches"]], lambda box, logs: _run_chain(case, res, box, logs))
+    res.labels = _once(res.labels)
     return res
 
 
@@ -1132,7 +1240,7 @@ def _check_caller_dir(w, res, when):
         res.bad("caller-datadir-contents-removed", "the caller's file inside the DataDirectory is gone %s" % when)
 
 
-DRIVERS = {"launch": drive_launch, "pair": drive_pair}
+DRIVERS = {"launch": drive_launch, "pair": drive_pair, "chain": drive_chain}
 
 # ----------------------------------------------------------------------------- generators
 
@@ -1154,6 +1262,8 @@ def configs():
         "direct": st.sampled_from([False, False, False, True]),
         # whether somebody asks when_connected() right after the spawn (launch() itself always waits)
         "ask_at_start": st.sampled_from([True, True, False]),
+        # the temp area (tempfile.gettempdir()) is reached through a symlink
+        "tmp_symlink": st.sampled_from([False, False, True]),
     })
 
 
@@ -1302,6 +1412,28 @@ def pair_cases(draw):
     order = draw(st.lists(st.integers(0, 1), max_size=len(a["sched"]) + len(b["sched"])))
     b_start = _pick(draw, [0, 0, 0, 1, 2, 4, 8])
     return {"launches": [a, b], "order": order, "b_start": b_start}
+
+
+@st.composite
+def chain_cases(draw):
+    """Two or three launches one after the other with the same TorConfig object and (mostly) no data_directory."""
+    n = _pick(draw, [2, 2, 3])
+    subs = []
+    symlink = _pick(draw, [False, False, True])
+    for k in range(n):
+        c = draw(cases())
+        c["cfg"]["direct"] = False
+        c["cfg"]["tmp_symlink"] = symlink
+        c["cfg"]["non_anon"] = False
+        if c["cfg"]["control"] is None:
+            c["cfg"]["control"] = 9051
+        if _pick(draw, [True, True, True, False]):
+            c["cfg"]["datadir"] = "none"
+        if k < n - 1 and _pick(draw, [True, False]):
+            # the usual reason for a retry: the earlier Tor died or timed out before a control connection
+            c["sched"] = [a for a in c["sched"] if a[0] != "conn"]
+        subs.append(c)
+    return {"launches": subs}
 
 
 # ----------------------------------------------------------------------------- bounded exhaustive interleavings
@@ -1459,6 +1591,32 @@ FIXED_SEQUENCES = [
 ]
 
 
+# the three endings, with the temp area reached through a symlink
+for _ending in ([["line"], ["conn", "ok"], ["own", "ack", 0], ["own", "ack", 0], TO_100, ["exit", "code", 0]],
+                [["line"], ["exit", "code", 1]],
+                [["line"], ["conn", "ok"], ["timeout"], ["exit", "signal", 15]]):
+    FIXED_SEQUENCES.append((_cfg(stdout=1, timeout=30, tmp_symlink=True), _ending))
+    FIXED_SEQUENCES.append((_cfg(stdout=1, timeout=30, tmp_symlink=True, datadir="existing"), _ending))
+
+_EARLY_EXIT = [["line"], ["exit", "code", 1]]
+_TIMES_OUT = [["out", 20], ["timeout"], ["exit", "signal", 15]]
+_SUCCEEDS = [["line"], ["conn", "ok"], ["own", "ack", 0], ["own", "ack", 0], TO_100, ["exit", "code", 0]]
+CHAIN_SEQUENCES = [
+    # (cfg, [schedule of launch 1, of launch 2, ...]) - all launches get the same cfg and ONE TorConfig
+    (_cfg(stdout=1, control=9051), [_EARLY_EXIT, _SUCCEEDS]),
+    (_cfg(stdout=1, control=9051), [_TIMES_OUT, _EARLY_EXIT, _TIMES_OUT]),
+    (_cfg(stdout=1, control=9051), [_SUCCEEDS, _EARLY_EXIT]),
+    (_cfg(stdout=1, control=9051, tmp_symlink=True), [_EARLY_EXIT, _EARLY_EXIT]),
+    (_cfg(stdout=1, control=9051, datadir="existing"), [_EARLY_EXIT, _SUCCEEDS]),
+    (_cfg(stdout=1, control=None), [_EARLY_EXIT, _EARLY_EXIT]),
+]
+
+
+def chain_fixed_cases():
+    for cfg, scheds in CHAIN_SEQUENCES:
+        yield {"launches": [{"cfg": cfg, "sched": [list(a) for a in sc]} for sc in scheds]}
+
+
 def fixed_cases():
     for cfg, sched in FIXED_SEQUENCES:
         yield {"cfg": cfg, "sched": [list(a) for a in sched]}
@@ -1523,13 +1681,15 @@ MANIFEST = {
 
 def run(ctx):
     ctx.enumerate("launch", fixed_cases(), name="fixed-sequences", exhaustive=False)
+    ctx.enumerate("chain", chain_fixed_cases(), name="fixed-chains", exhaustive=False)
     ctx.enumerate("launch", scenario_cases("core-race", QUICK_SCENARIOS), name="interleavings:core-race")
     ctx.enumerate("launch", scenario_cases("direct-late-ask", DIRECT_SCENARIOS), name="interleavings:direct-late-ask")
     for name in sorted(RETRY_SCENARIOS):
         ctx.enumerate("launch", scenario_cases(name, RETRY_SCENARIOS), name="interleavings:" + name)
     ctx.enumerate("pair", pair_scenario_cases("pair-exit-vs-bootstrap"), name="interleavings:pair-exit-vs-bootstrap")
     ctx.search("launch", cases(), quick=1400, thorough=8000)
-    ctx.search("pair", pair_cases(), quick=200, thorough=3000, name="pair")
+    ctx.search("pair", pair_cases(), quick=150, thorough=3000, name="pair")
+    ctx.search("chain", chain_cases(), quick=120, thorough=2000, name="chain")
     if not ctx.quick():
         ctx.enumerate("launch", scenario_cases("core-race-caller-dir", QUICK_SCENARIOS),
                       name="interleavings:core-race-caller-dir")
@@ -1602,6 +1762,19 @@ MUTANTS = [
      "            yield self.tor_protocol.queue_command('RESETCONF __OwningControllerProcess')\n"),
     ("notify-over-a-snapshot", "txtorcon/controller.py",
      "        for d in self._connected_listeners:\n", "        for d in list(self._connected_listeners):\n"),
+    # --- temp area behind a symlink / one TorConfig re-used for a later launch
+    ("cleanup-only-below-unresolved-tempdir", "txtorcon/controller.py",
+     "        all([delete_file_or_tree(f) for f in self.to_delete])\n",
+     "        all([delete_file_or_tree(f) for f in self.to_delete\n"
+     "             if os.path.realpath(f).startswith(tempfile.gettempdir())])\n"),
+    ("datadir-adopted-from-reused-config", "txtorcon/controller.py",
+     "    config = _tor_config or TorConfig()\n",
+     "    config = _tor_config or TorConfig()\n"
+     "    if data_directory is None and _tor_config is not None:\n"
+     "        try:\n"
+     "            data_directory = config.DataDirectory\n"
+     "        except KeyError:\n"
+     "            data_directory = None\n"),
     ("timeout-fires-success-path", "txtorcon/controller.py",
      "        fail = Failure(RuntimeError(\"timeout while launching Tor\"))\n        self._maybe_notify_connected(fail)\n",
      "        self._maybe_notify_connected(self)\n"),
